@@ -72,7 +72,12 @@ func fieldsOf(name string) []string {
 }
 
 // operandName: T.f for field loads, len(T.f), result() for call results (nil tests on what a getter returned).
-func operandName(v ssa.Value) string {
+func operandName(v ssa.Value) string { return operandNameD(v, 0) }
+
+func operandNameD(v ssa.Value, depth int) string {
+	if depth > 8 {
+		return "" // φ cycle (loop-carried value)
+	}
 	if fo := flow.FieldOwner(v); fo != "" {
 		return fo
 	}
@@ -112,7 +117,7 @@ func operandName(v ssa.Value) string {
 			if k, ok := e.(*ssa.Const); ok && k.Value == nil {
 				continue
 			}
-			n := operandName(e)
+			n := operandNameD(e, depth+1)
 			if n == "" || (s != "" && s != n) {
 				return ""
 			}
@@ -120,9 +125,9 @@ func operandName(v ssa.Value) string {
 		}
 		return s
 	case *ssa.ChangeType:
-		return operandName(x.X)
+		return operandNameD(x.X, depth+1)
 	case *ssa.MakeInterface:
-		return operandName(x.X)
+		return operandNameD(x.X, depth+1)
 	}
 	return ""
 }
@@ -133,4 +138,37 @@ func operandName(v ssa.Value) string {
 func atomHolds(atoms []string, base, op, val string) bool {
 	neg := map[string]string{"!=": "==", "==": "!=", ">": "<=", "<=": ">", "<": ">=", ">=": "<"}
 	return has(atoms, base+op+val) || has(atoms, "!"+base+neg[op]+val)
+}
+
+// canonEmptiness gives the many spellings of an emptiness test (len(x)==0, !=0, >0, <1, >=1, <=0) one canonical atom
+// "len(x)>0"; a leading "!" marks the negation (understood by esp).
+func canonEmptiness(name string) string {
+	if !strings.HasPrefix(name, "len(") {
+		return name
+	}
+	i := strings.Index(name, ")")
+	if i < 0 {
+		return name
+	}
+	l, rest := name[:i+1], name[i+1:]
+	switch rest {
+	case ">0", "!=0", ">=1":
+		return l + ">0"
+	case "==0", "<=0", "<1":
+		return "!" + l + ">0"
+	}
+	return name
+}
+
+// canonGuard: one atom for the two spellings of a test (x != v is the negation of x == v), so that a path cannot
+// carry both "x!=nil is false" and "x==nil is false".
+func canonGuard(name string) string {
+	name = canonEmptiness(name)
+	if strings.HasPrefix(name, "!") {
+		return name
+	}
+	if i := strings.Index(name, "!="); i > 0 {
+		return "!" + name[:i] + "==" + name[i+2:]
+	}
+	return name
 }
